@@ -32,11 +32,23 @@ import (
 )
 
 const (
-	verifDir = "/verif"
-	simDir   = "/verif/sim"
-	repoDir  = "/repo"
-	goBin    = "/opt/veriftools/go1.26.8/bin/go"
+	repoDir = "/repo"
+	goBin   = "/opt/veriftools/go1.26.8/bin/go"
 )
+
+// verifDir: /verif, or a snapshot of it (VERIF_HOME, set by bin/check from its
+// own location) so that a long background run is not disturbed by edits.
+var (
+	verifDir = verifHome()
+	simDir   = verifDir + "/sim"
+)
+
+func verifHome() string {
+	if h := os.Getenv("VERIF_HOME"); h != "" {
+		return h
+	}
+	return "/verif"
+}
 
 type tierCfg struct {
 	Runs          int
@@ -685,6 +697,13 @@ func (d *driver) confirm(path string, v *sim.Violation) (bool, string) {
 	if d.prop == "C12" || d.prop == "C07" || strings.Contains(v.Class, "strace") {
 		attempts = 6
 	}
+	if v.Oracle == "race" {
+		// whether two clients meet in a sync.Pool depends on the P each runs
+		// on and on the race-mode runtime dropping a quarter of all Puts at
+		// random: neither is a seam of the harness. One attempt is one
+		// short-lived process.
+		attempts = 30
+	}
 	why := ""
 	for i := 0; i < attempts; i++ {
 		r, err := d.runScenarioFile(path, "confirm")
@@ -718,6 +737,9 @@ func (d *driver) replay(path string) int {
 	attempts := 1
 	if d.prop == "C12" || d.prop == "C07" {
 		attempts = 6
+	}
+	if sc.Violation != nil && sc.Violation.Oracle == "race" {
+		attempts = 30 // see confirm
 	}
 	for i := 0; i < attempts; i++ {
 		r, err := d.runScenarioFile(path, "replay")
